@@ -252,7 +252,7 @@ def main(argv):
                         "status": r.get("status"), "cases": r.get("cases"), "detail": str(r.get("detail", ""))[:500]})
         if r.get("status") == "fail":
             native_fail.append((nat, r))
-        elif r.get("status") == "error":
+        elif r.get("status") == "error" and "replay timeout" not in str(r.get("detail")):
             faults.append(f"native check {nat['name']} errored: {str(r.get('detail'))[-400:]}")
     # ---- verdict
     known = [k for k in load_known() if k["property"] == pid and k.get("status") == "known"]
